@@ -205,9 +205,25 @@ impl<'r> fixed_point::FixedPointAnalysis<'r, Constants> for ConstantsAnalysis {
         location: il::RefProgramLocation<'r>,
         state: Option<Constants>,
     ) -> Result<Constants, Error> {
+        // Nothing is known about the scalars on entry to the function: every
+        // scalar the function writes starts as Top there, whatever loops back
+        // to the entry. All states then carry the same scalars, and a scalar
+        // assigned on only some of the paths joins to Top.
+        let function_entry = il::RefProgramLocation::from_function(location.function())
+            .ok_or("Unable to get function entry")??;
         let mut state = match state {
-            Some(state) => state,
-            None => Constants::new(),
+            Some(state) if location != function_entry => state,
+            _ => {
+                let mut entry_state = Constants::new();
+                for block in location.function().blocks() {
+                    for instruction in block.instructions() {
+                        for scalar in instruction.scalars_written().unwrap_or_default() {
+                            entry_state.set_scalar(scalar.clone(), Constant::Top);
+                        }
+                    }
+                }
+                entry_state
+            }
         };
 
         let state = match location.instruction() {
